@@ -600,45 +600,69 @@ func run(ctx *bex.Ctx) {
 		if ctx.WantSample() && st.States > 100 {
 			ctx.Sample(map[string]any{"scenario": repro, "sequential_reference": ref, "executions": st.Execs, "states": st.States, "transitions": st.Transitions, "vthreads": st.MaxThreads, "distinct_outcomes": len(st.Outcomes)})
 		}
-		// oracle 1: outcome on every terminal state = sequential reference
-		for obs := range st.Outcomes {
-			if obs != ref {
-				finding := ""
-				if obs == "ERR(iterator timed out)" && strings.HasPrefix(sc.Family, "F:") && strings.Contains(sc.Src, "l->5") {
-					// A multiUse consumer that never iterates its list makes the source wait for the 5 s
-					// timeout: the repository's own test suite pins this ("numbers(10).multiUse({a:l->1, b:l->l->2})"
-					// must fail with 'timed out'), so it is documented behaviour, not a deviation from
-					// the sequential result. Races, deadlocks and crashes are still checked.
-					ctx.Unspecified("multiUse consumer that never iterates its list: the timeout error is pinned by the repository's tests")
-					continue
-				}
-				t := st.Terminals
-				var choices []int
-				for _, tt := range t {
-					if tt.Obs == obs {
-						choices = tt.Choices
-						break
+		judge := func(st *vsched.Stats, repro map[string]any) {
+			// oracle 1: outcome on every terminal state = sequential reference
+			for obs := range st.Outcomes {
+				if obs != ref {
+					finding := ""
+					if obs == "ERR(iterator timed out)" && strings.HasPrefix(sc.Family, "F:") && strings.Contains(sc.Src, "l->5") {
+						// A multiUse consumer that never iterates its list makes the source wait for the 5 s
+						// timeout: the repository's own test suite pins this ("numbers(10).multiUse({a:l->1, b:l->l->2})"
+						// must fail with 'timed out'), so it is documented behaviour, not a deviation from
+						// the sequential result. Races, deadlocks and crashes are still checked.
+						ctx.Unspecified("multiUse consumer that never iterates its list: the timeout error is pinned by the repository's tests")
+						continue
 					}
+					t := st.Terminals
+					var choices []int
+					for _, tt := range t {
+						if tt.Obs == obs {
+							choices = tt.Choices
+							break
+						}
+					}
+					rp := copyMap(repro)
+					rp["schedule"] = choices
+					ctx.Violate("outcome under some schedule differs from the sequential result", rp, ref, obs, finding)
 				}
+			}
+			// oracle 2: data races — every distinct race of the scenario is classified on its own, so that a
+			// known one cannot mask another
+			reportRaces(ctx, st, repro)
+			// oracle 3: deadlock
+			if t := st.FirstDeadlock(); t != nil {
 				rp := copyMap(repro)
-				rp["schedule"] = choices
-				ctx.Violate("outcome under some schedule differs from the sequential result", rp, ref, obs, finding)
+				rp["schedule"] = t.Choices
+				ctx.Violate("deadlock: the evaluation never returns under this schedule", rp, "evaluation returns", t.Leaks, "")
+			}
+			// oracle 4: crash of a library goroutine
+			if t := st.FirstCrash(); t != nil {
+				rp := copyMap(repro)
+				rp["schedule"] = t.Choices
+				ctx.Violate("panic on a library goroutine", rp, "no panic", t.Crash, "")
 			}
 		}
-		// oracle 2: data races — every distinct race of the scenario is classified on its own, so that a
-		// known one cannot mask another
-		reportRaces(ctx, &st, repro)
-		// oracle 3: deadlock
-		if t := st.FirstDeadlock(); t != nil {
-			rp := copyMap(repro)
-			rp["schedule"] = t.Choices
-			ctx.Violate("deadlock: the evaluation never returns under this schedule", rp, "evaluation returns", t.Leaks, "")
+		judge(&st, repro)
+		// second pass WITHOUT state pruning: history-key pruning is sound only while vthreads communicate
+		// through hooked operations; this pass explores every schedule with at most pb preemptions as is,
+		// so that communication through memory the hooks do not see (backing arrays) cannot hide
+		pb := 2
+		if !ctx.Quick() {
+			pb = 3
 		}
-		// oracle 4: crash of a library goroutine
-		if t := st.FirstCrash(); t != nil {
+		if v := os.Getenv("C06_PB"); v != "" {
+			fmt.Sscan(v, &pb)
+		}
+		if pb >= 0 && !ctx.Expired() {
+			st2 := vsched.Explore(vsched.Config{PreemptBound: pb, NoPrune: true, MaxExecs: maxExecs / 5, Stop: ctx.Expired}, body)
+			ctx.Add("executions_unpruned_pass", int64(st2.Execs))
+			ctx.Add("traces_validated_against_impl", int64(st2.Execs))
+			if st2.Capped {
+				ctx.Add("scenarios_capped_unpruned_pass", 1)
+			}
 			rp := copyMap(repro)
-			rp["schedule"] = t.Choices
-			ctx.Violate("panic on a library goroutine", rp, "no panic", t.Crash, "")
+			rp["pass"] = fmt.Sprintf("no pruning, <= %d preemptions", pb)
+			judge(&st2, rp)
 		}
 	})
 	ctx.SpaceDone("families A (pre x par x post), B (pre x par x terminal), C (par x post x terminal), D (par x terminal x size x failing element), E (merge), F (multiUse), G (nested parallel, thorough); all interleavings per scenario, W=2 (thorough: 2,3)")
